@@ -1,4 +1,5 @@
 import Proofs.Apps.Site
+import Proofs.Apps.Wkc
 /-!
 # C17 — Site routing: exact match, longest prefix for nested sites, matching discovery
 
@@ -360,6 +361,286 @@ theorem C17_history_then_add (s0 : Site) (history : List Reg) (path : Path) (r :
     cases h
     exact h2 path
 
+-- the registration dicts stay dicts ------------------------------------------------------------
+
+/-- every `_resources` / `_subsites` in the tree has unique keys (is a dict) -/
+inductive DictTree : Site → Prop where
+  | leaf {id} : DictTree (.leaf id)
+  | node {rs ss} : (keys rs).Nodup → (keys ss).Nodup → (∀ k t, (k, t) ∈ ss → DictTree t) →
+      DictTree (.node rs ss)
+
+theorem dictTree_modifyAt (f : Site → Option Site)
+    (hf : ∀ s s', DictTree s → f s = some s' → DictTree s') :
+    ∀ (addr : List Path) (s s' : Site), DictTree s → s.modifyAt f addr = some s' → DictTree s' := by
+  intro addr
+  induction addr with
+  | nil => intro s s' hs h; rw [Site.modifyAt.eq_1] at h; exact hf s s' hs h
+  | cons k ks ih =>
+    intro s s' hs h
+    cases s with
+    | leaf id => simp [Site.modifyAt] at h
+    | node rs ss =>
+      rw [modifyAt_cons] at h
+      cases hk : lookup k ss with
+      | none => simp [hk] at h
+      | some t =>
+        simp only [hk, Option.map_eq_some_iff] at h
+        obtain ⟨t', ht', rfl⟩ := h
+        cases hs with
+        | node h1 h2 h3 =>
+          refine .node h1 (keys_insert_nodup t' h2) fun k'' t'' hm => ?_
+          rcases mem_insert hm with he | he
+          · cases he; exact ih t t' (h3 k t (lookup_mem hk)) ht'
+          · exact h3 k'' t'' he
+
+/-- **C17 (model faithfulness: dicts).** Starting from a tree whose registration tables have
+unique keys (e.g. the empty `Site()`), every registration call at any nesting depth keeps them
+unique: `insert`/`erase` on association lists behave like the Python dict operations. -/
+theorem C17_dict_invariant (s : Site) (hs : DictTree s) (history : List Reg)
+    (hadd : ∀ a p t, Reg.addSite a p t ∈ history → DictTree t) :
+    DictTree (s.regs history) := by
+  induction history generalizing s with
+  | nil => exact hs
+  | cons r rest ih =>
+    rw [Site.regs]
+    refine ih _ ?_ (fun a p t h => hadd a p t (List.mem_cons_of_mem _ h))
+    cases hr : s.reg r with
+    | none => exact hs
+    | some s' =>
+      simp only [Option.getD_some]
+      cases r with
+      | addRes a p res =>
+        refine dictTree_modifyAt _ (fun x x' hx hxx => ?_) a s s' hs hr
+        cases x with
+        | leaf id => simp [Site.addResource] at hxx
+        | node rs ss =>
+          simp only [Site.addResource, Option.some.injEq] at hxx
+          subst hxx
+          cases hx with
+          | node h1 h2 h3 => exact .node (keys_insert_nodup res h1) h2 h3
+      | addSite a p t =>
+        have ht := hadd a p t List.mem_cons_self
+        refine dictTree_modifyAt _ (fun x x' hx hxx => ?_) a s s' hs hr
+        cases x with
+        | leaf id => simp [Site.addSite] at hxx
+        | node rs ss =>
+          simp only [Site.addSite, Option.some.injEq] at hxx
+          subst hxx
+          cases hx with
+          | node h1 h2 h3 =>
+            refine .node h1 (keys_insert_nodup t h2) fun k'' t'' hm => ?_
+            rcases mem_insert hm with he | he
+            · cases he; exact ht
+            · exact h3 k'' t'' he
+      | remove a p =>
+        refine dictTree_modifyAt _ (fun x x' hx hxx => ?_) a s s' hs hr
+        cases x with
+        | leaf id => simp [Site.remove] at hxx
+        | node rs ss =>
+          cases hx with
+          | node h1 h2 h3 =>
+            simp only [Site.remove] at hxx
+            split at hxx
+            · cases hxx
+              exact .node h1 (keys_erase_nodup h2) fun k'' t'' hm => h3 k'' t'' (mem_of_mem_erase hm)
+            · split at hxx
+              · cases hxx
+                exact .node (keys_erase_nodup h1) h2 h3
+              · cases hxx
+
+-- discovery ---------------------------------------------------------------------------------
+
+/-- `Registered s fp r`: resource `r` is registered somewhere in the tree `s`, and `fp` are the
+segments of its full path through the nested sites: its own registration path, prefixed by the
+keys of the sub-sites above it (`seg` turns an empty path into the single empty segment — the root
+resource of a nested site at `k` is `k/`; for non-empty keys `seg k = k`). -/
+inductive Registered : Site → Path → Res → Prop where
+  | res {rs ss q r} : (q, r) ∈ rs → Registered (.node rs ss) (seg q) r
+  | sub {rs ss k t fp r} : (k, t) ∈ ss → Registered t fp r →
+      Registered (.node rs ss) (seg k ++ fp) r
+
+theorem Registered.ne_nil {s : Site} {fp : Path} {r : Res} (h : Registered s fp r) : fp ≠ [] := by
+  cases h with
+  | res _ => exact seg_ne_nil _
+  | sub _ _ => intro e; exact seg_ne_nil _ (List.append_eq_nil_iff.mp e).1
+
+/-- **C17 (listing = visible registered resources, full paths).** A link is in what
+`get_resources_as_linkheader` returns iff it is `</full/path>` + description of a registered
+resource that does not hide itself (`get_link_description() is None`), with the full path
+through all nested sites. -/
+theorem C17_wkc_exact (s : Site) : ∀ l : Link,
+    l ∈ s.links ↔ ∃ fp r, Registered s fp r ∧ r.hidden = false ∧
+      l = ⟨47 :: joinSlash fp, r.attrs⟩ := by
+  induction s using Site.induct with
+  | leaf id =>
+    intro l
+    simp only [Site.links.eq_1, List.not_mem_nil, false_iff]
+    rintro ⟨fp, r, h, _⟩; cases h
+  | node rs ss ih =>
+    intro l
+    rw [links_node, List.mem_append, mem_resLinks]
+    simp only [List.mem_flatMap, List.mem_map]
+    constructor
+    · rintro (⟨q, r, hm, hv, rfl⟩ | ⟨⟨k, t⟩, hm, l', hl', rfl⟩)
+      · exact ⟨seg q, r, .res hm, hv, by rw [joinSlash_seg]⟩
+      · obtain ⟨fp, r, hreg, hv, rfl⟩ := (ih k t hm l').mp hl'
+        exact ⟨seg k ++ fp, r, .sub hm hreg, hv, prefixLink_href k hreg.ne_nil _⟩
+    · rintro ⟨fp, r, hreg, hv, rfl⟩
+      cases hreg with
+      | res hm => exact Or.inl ⟨_, r, hm, hv, by rw [joinSlash_seg]⟩
+      | @sub _ _ k t fp' _ hm hreg' =>
+        refine Or.inr ⟨(k, t), hm, ⟨47 :: joinSlash fp', r.attrs⟩, ?_, prefixLink_href k hreg'.ne_nil _⟩
+        exact (ih k t hm _).mpr ⟨fp', r, hreg', hv, rfl⟩
+
+mutual
+/-- number of registered resources in the tree that do not hide themselves -/
+def Site.visibleCount : Site → Nat
+  | .leaf _ => 0
+  | .node rs ss => (rs.filter (fun e => !e.2.hidden)).length + visibleCountSubs ss
+def visibleCountSubs : List (Path × Site) → Nat
+  | [] => 0
+  | (_, s) :: rest => s.visibleCount + visibleCountSubs rest
+end
+
+theorem visibleCountSubs_eq (ss : List (Path × Site)) :
+    visibleCountSubs ss = (ss.map (fun e => e.2.visibleCount)).sum := by
+  induction ss with
+  | nil => rfl
+  | cons e ss ih => obtain ⟨k, t⟩ := e; simp [visibleCountSubs, ih]
+
+/-- **C17 (listing, multiplicity).** The listing has exactly one link per visible registered
+resource: together with `C17_wkc_exact`, nothing is listed twice or dropped. -/
+theorem C17_wkc_count (s : Site) : s.links.length = s.visibleCount := by
+  induction s using Site.induct with
+  | leaf id => simp [Site.links, Site.visibleCount]
+  | node rs ss ih =>
+    rw [links_node, Site.visibleCount.eq_2, visibleCountSubs_eq, List.length_append,
+      length_resLinks, List.length_flatMap]
+    congr 1
+    congr 1
+    apply List.map_congr_left
+    intro e he
+    obtain ⟨k, t⟩ := e
+    simp only [List.length_map]
+    exact ih k t he
+
+/-- **C17 (discovery matches routing).** A link listed for a resource of a nested site —
+registered at `q` in the site registered at `k` — names the path `k ++ seg q`; a request for that
+path is rendered by that very resource, provided nothing shadows it (no root resource at the same
+path, no nested site at a longer prefix) and `q` is not the lone empty component (which, like the
+empty path, denotes `k/`).  Root-level links (`k`-less) are `C17_exact_first`. -/
+theorem C17_listed_link_routes_to_resource (rs rs' : List (Path × Res))
+    (ss ss' : List (Path × Site)) (k q : Path) (r : Res)
+    (hdict : (keys ss).Nodup) (hdict' : (keys rs').Nodup)
+    (hk : (k, Site.node rs' ss') ∈ ss) (hkne : k ≠ []) (hq : (q, r) ∈ rs') (hq1 : q ≠ [[]])
+    (hshadow : lookup (k ++ seg q) rs = none)
+    (hlonger : ∀ k' ∈ keys ss, ProperPrefix k' (k ++ seg q) → k'.length ≤ k.length) :
+    Registered (Site.node rs ss) (k ++ seg q) r ∧
+    (Site.node rs ss).route (k ++ seg q) = some ⟨r.id, [], k ++ seg q⟩ := by
+  constructor
+  · have := Registered.sub (rs := rs) hk (Registered.res (ss := ss') hq)
+    rwa [seg_of_ne_nil hkne] at this
+  · have hpre : ProperPrefix k (k ++ seg q) := by
+      refine ⟨hkne, ?_, List.prefix_append k _⟩
+      have := List.length_pos_iff.mpr (seg_ne_nil q)
+      simp only [List.length_append]; omega
+    unfold Site.route
+    rw [(C17_longest_prefix rs ss _ _ k _ hshadow (lookup_of_mem hdict hk) hpre hlonger).1,
+      List.drop_left]
+    have hn : normRem (seg q) = q := by
+      unfold normRem seg
+      by_cases h : q = []
+      · simp [h]
+      · simp [h, hq1]
+    rw [hn]
+    exact C17_exact_first rs' ss' _ q r (lookup_of_mem hdict' hq)
+
+-- RFC 6690 filter ---------------------------------------------------------------------------
+
+/-- RFC 6690 §4.1 query pattern: a trailing `*` makes the rest a prefix to find, otherwise the
+value has to be identical -/
+def PatMatch (v x : Str) : Prop := if v.getLast? = some 42 then v.dropLast <+: x else x = v
+
+/-- the link has an attribute named `k` (names compare case-insensitively) with value `val`;
+an attribute without a value has none -/
+def HasValue (l : Link) (k val : Str) : Prop :=
+  ∃ key, (key, some val) ∈ l.attrs ∧ lowerAscii key = lowerAscii k
+
+/-- `part` is one entry of the space-separated list `val` (a maximal space-free piece) -/
+def Entry (val part : Str) : Prop :=
+  32 ∉ part ∧ ∃ pre post, val = pre ++ part ++ post ∧
+    (pre = [] ∨ ∃ pre', pre = pre' ++ [32]) ∧ (post = [] ∨ ∃ post', post = 32 :: post')
+
+/-- RFC 6690 §4.1: does the link match the filter `k=v`?  `href` is compared with the link
+target; `rt`, `if` and `ct` hold space-separated lists of which one entry has to match; any other
+attribute is compared as a whole. A link without the attribute does not match. -/
+def Matches (k v : Str) (l : Link) : Prop :=
+  if k = kHref then PatMatch v l.href
+  else if k = kRt ∨ k = kIf ∨ k = kCt then
+    ∃ val part, HasValue l k val ∧ Entry val part ∧ PatMatch v part
+  else ∃ val, HasValue l k val ∧ PatMatch v val
+
+theorem linkMatches_iff (k v : Str) (l : Link) : linkMatches k v l = true ↔ Matches k v l := by
+  unfold linkMatches Matches
+  by_cases hh : k = kHref
+  · subst hh
+    have hn : ¬ (kHref = kRt ∨ kHref = kIf ∨ kHref = kCt) := by decide
+    simp only [hn, ↓reduceIte, matchExp_iff, PatMatch]
+  · by_cases hm : k = kRt ∨ k = kIf ∨ k = kCt
+    · simp only [hm, hh, ↓reduceIte, List.any_eq_true, matchExp_iff, PatMatch]
+      constructor
+      · rintro ⟨val, hv, part, hp, hmatch⟩
+        exact ⟨val, part, mem_attributeValues.mp hv, mem_splitOn.mp hp, hmatch⟩
+      · rintro ⟨val, part, hv, hp, hmatch⟩
+        exact ⟨val, mem_attributeValues.mpr hv, part, mem_splitOn.mpr hp, hmatch⟩
+    · simp only [hm, hh, ↓reduceIte, List.any_eq_true, matchExp_iff, PatMatch]
+      constructor
+      · rintro ⟨val, hv, hmatch⟩; exact ⟨val, mem_attributeValues.mp hv, hmatch⟩
+      · rintro ⟨val, hv, hmatch⟩; exact ⟨val, mem_attributeValues.mpr hv, hmatch⟩
+
+/-- what `render_get` filters: the generator's links plus the optional impl-info link -/
+def wkcAll (links : List Link) (implInfo : Option Str) : List Link :=
+  links ++ (match implInfo with | some u => [implInfoLink u] | none => [])
+
+/-- how a query item is read: `k=v` split at the first `=`, items without `=` are no filters -/
+theorem C17_filter_query_parse (q k v : Str) :
+    (splitEq q = some (k, v) ↔ q = k ++ 61 :: v ∧ 61 ∉ k) ∧ (splitEq q = none ↔ 61 ∉ q) := by
+  refine ⟨⟨splitEq_some, fun ⟨h1, h2⟩ => h1 ▸ splitEq_of_eq h2⟩, splitEq_none, fun h => ?_⟩
+  cases hs : splitEq q with
+  | none => rfl
+  | some kv =>
+    obtain ⟨h1, _⟩ := splitEq_some (k := kv.1) (v := kv.2) hs
+    exact absurd (h1 ▸ by simp) h
+
+/-- **C17 (filter = matching subset).** With one RFC 6690 filter `k=v` / `k=v*` in the query
+(items without `=` are ignored), `/.well-known/core` answers exactly the sub-list of the links it
+would list without query that match the filter: same order, same multiplicity, nothing else. -/
+theorem C17_filter_subset (links : List Link) (implInfo : Option Str) (queries : List Str)
+    (k v : Str) (hq : queries.filterMap splitEq = [(k, v)]) :
+    ∃ keep : Link → Bool, (∀ l, keep l = true ↔ Matches k v l) ∧
+      wkcRender links implInfo queries = some ((wkcAll links implInfo).filter keep) := by
+  refine ⟨linkMatches k v, linkMatches_iff k v, ?_⟩
+  cases implInfo <;> simp only [wkcRender, hq, wkcAll]
+
+/-- without a filter the whole listing is returned -/
+theorem C17_no_filter_full_listing (links : List Link) (implInfo : Option Str)
+    (queries : List Str) (hq : ∀ q ∈ queries, 61 ∉ q) :
+    wkcRender links implInfo queries = some (wkcAll links implInfo) := by
+  have : queries.filterMap splitEq = [] := by
+    rw [List.filterMap_eq_nil_iff]
+    intro q hmem
+    exact ((C17_filter_query_parse q [] []).2).mpr (hq q hmem)
+  cases implInfo <;> simp only [wkcRender, this, wkcAll]
+
+/-- membership form of `C17_filter_subset` -/
+theorem C17_filter_mem (links : List Link) (implInfo : Option Str) (queries : List Str)
+    (k v : Str) (hq : queries.filterMap splitEq = [(k, v)]) :
+    ∃ result, wkcRender links implInfo queries = some result ∧ result.Sublist (wkcAll links implInfo) ∧
+      ∀ l, l ∈ result ↔ l ∈ wkcAll links implInfo ∧ Matches k v l := by
+  obtain ⟨keep, hkeep, hres⟩ := C17_filter_subset links implInfo queries k v hq
+  refine ⟨_, hres, List.filter_sublist, fun l => ?_⟩
+  rw [List.mem_filter, hkeep]
+
 -- non-vacuity ----------------------------------------------------------------------------------
 
 /-- `/batch` example of the `Site` docstring plus shadowing: resource `1` at `batch/light1` in the
@@ -396,5 +677,24 @@ example : (exampleSite.reg (.remove [] [[1], [2]])).map (·.route [[1], [2]]) =
     some (some ⟨2, [], [[1], [2]]⟩) := by decide
 example : (exampleSite.reg (.addRes [[[1]]] [[9]] ⟨9, false, []⟩)).map (·.route [[1], [9]]) =
     some (some ⟨9, [], [[1], [9]]⟩) := by decide
+
+/-- listing of the example tree: full paths through the nested sites, root of `batch` as `1/` -/
+example : exampleSite.links.map (·.href) =
+    [[47, 1, 47, 2], [47, 1, 47, 2], [47, 1, 47]] := by decide
+example : exampleSite.visibleCount = 3 := by decide
+/-- `rt="temp light"`: `rt=light`, `rt=li*` match an entry, `rt=ight*` does not (no substring
+match), `title=temp` does not match `title="temp light"` but `title=temp*` does -/
+def exampleLink : Link :=
+  ⟨[47, 107], [(kRt, some [116, 101, 109, 112, 32, 108, 105, 103, 104, 116]),
+    ([116, 105, 116, 108, 101], some [116, 101, 109, 112, 32, 108, 105, 103, 104, 116]),
+    ([111, 98, 115], none)]⟩
+example : linkMatches kRt [108, 105, 103, 104, 116] exampleLink = true := by decide
+example : linkMatches kRt [108, 105, 42] exampleLink = true := by decide
+example : linkMatches kRt [105, 103, 104, 116, 42] exampleLink = false := by decide
+example : linkMatches [116, 105, 116, 108, 101] [116, 101, 109, 112] exampleLink = false := by decide
+example : linkMatches [116, 105, 116, 108, 101] [116, 101, 109, 112, 42] exampleLink = true := by decide
+example : linkMatches [111, 98, 115] [42] exampleLink = false := by decide      -- valueless
+example : linkMatches kIf [42] exampleLink = false := by decide                 -- absent
+example : Matches kRt [108, 105, 42] exampleLink := (linkMatches_iff _ _ _).mp (by decide)
 
 end Aiocoap.Apps
